@@ -124,13 +124,17 @@ def replay_behaviour(b, rng):
 
 
 def random_case(rng, big=True):
+    # half of the cases are rich in internal samples (nested sample ancestors), with distinct times
+    pis = rng.choice([0.15, 0.15, 0.6, 0.9])
+    mt = rng.choice([3, 3, 8])
     if big:
-        a = gen.random_abstract(rng, N=rng.randint(2, 8), K=rng.randint(1, 6), max_edges=14)
+        a = gen.random_abstract(rng, N=rng.randint(2, 8), K=rng.randint(1, 6), max_edges=14, p_internal_sample=pis, max_time=mt)
     else:
-        a = gen.random_abstract(rng, N=rng.randint(2, 5), K=rng.randint(1, 3), max_edges=5, nsites=2, nmuts=1)
+        a = gen.random_abstract(rng, N=rng.randint(2, 5), K=rng.randint(1, 3), max_edges=5, nsites=2, nmuts=1, p_internal_sample=pis, max_time=mt)
     samples = [u for u in range(len(a["time"])) if a["flags"][u]]
     th = rng.choice([1, 1, 2, 3])
-    tracked = sorted(rng.sample(samples, rng.randint(0, len(samples)))) if samples and rng.random() < 0.7 else []
+    r = rng.random()
+    tracked = list(samples) if r < 0.35 else sorted(rng.sample(samples, rng.randint(0, len(samples)))) if samples and r < 0.8 else []
     cmap, tmap = gen.random_maps(rng)
     return drive_case(rng, a, th, tracked, rng.random() < 0.5, rng.randint(5, 40), cmap, tmap)
 
@@ -160,8 +164,25 @@ def run():
             raise common.MachineryError("MC_TreeCursor did not complete:\n" + mc["out"][-3000:])
     chk.exhaustive = mc["ok"]
     # (2) spec -> code
-    beh, _ = common.tlc_simulate_json("Sim_TreeCursor", num=20 if QUICK else 400, depth=11, seed=SEED + 1,
-                                      timeout=600 if QUICK else 3000)
+    import json, os, tempfile, shutil
+    uni, ust = common.tlc_eval_json("Dump_Universe", cfg="Dump_Universe_S")
+    chk.add_tlc(ust)
+    # prefer elements with nested sample ancestors and several trees
+    def score(a):
+        ch = {(e["parent"], e["child"]) for e in a["edges"]}
+        nested = any(a["flags"][p] and a["flags"][c] for p, c in ch)
+        return (2 if nested else 0) + (1 if len({e["left"] for e in a["edges"]} | {e["right"] for e in a["edges"]}) >= 3 else 0)
+    pool = sorted(uni, key=lambda a: -score(a))[:max(4000, len(uni) // 4)]
+    pick = rng.sample(pool, 150 if QUICK else 1500)
+    tmpd = tempfile.mkdtemp(prefix="simts_")
+    try:
+        with open(os.path.join(tmpd, "ts.ndjson"), "w") as fh:
+            for a in pick:
+                fh.write(json.dumps(a) + "\n")
+        beh, _ = common.tlc_simulate_json("Sim_TreeCursor", num=20 if QUICK else 400, depth=11, seed=SEED + 1,
+                                          timeout=600 if QUICK else 3000, env={"SIMTS": os.path.join(tmpd, "ts.ndjson")})
+    finally:
+        shutil.rmtree(tmpd, ignore_errors=True)
     nsteps = 0
     for b in beh:
         err = replay_behaviour(b, rng)
